@@ -3,6 +3,7 @@
 package oracle
 
 import (
+	"verif/sim/zones"
 	"bytes"
 	"encoding/json"
 	"fmt"
@@ -474,6 +475,13 @@ func checkC02(an *Analysis, add func(Violation)) {
 		if c.Rec.Obs.Panic != "" {
 			continue // C04
 		}
+		if an.Sc.TZ != "" && d != nil {
+			// an eighth of the runs has a process zone: interpretation does not depend on it, except where the
+			// civil time a reply carries does not exist there (C13's exemptions)
+			if loc := zones.Load(an.Sc.TZ); loc != nil {
+				relaxZone(loc, c.St.Op, &exp, d.Data)
+			}
+		}
 		aspect, detail := exp.Check(c.Rec.Obs)
 		if aspect == "" {
 			continue
@@ -520,6 +528,11 @@ func checkC03(an *Analysis, add func(Violation)) {
 				continue
 			}
 		}
+		// "keeps waiting for S until its deadline": nothing that is read after the deadline is the basis of a result
+		if T := c.Client.Timeout; !failed && d != nil && d.T > c.Turn()+T {
+			v("accepted-after-deadline", fmt.Sprintf("the call succeeded on the basis of a datagram read %v after its turn began; the timeout is %v", d.T-c.Turn(), T))
+			continue
+		}
 		switch {
 		case exp.Fail == 2 && exp.Sent:
 			// a sentinel rule: interpretation (C02), not acceptance
@@ -529,6 +542,8 @@ func checkC03(an *Analysis, add func(Violation)) {
 			} else {
 				v("accepted-bad", "the call succeeded on the basis of a datagram that must make it fail: "+exp.Why)
 			}
+		case exp.Hard && !failed && d != nil && !exp.Sent:
+			v("accepted-malformed", "the call succeeded on the basis of a reply with an undecodable field (boolean byte other than 0/1 or non-decimal BCD nibble):"+exp.Why+"\n  reply: "+hexs(d.Data))
 		case exp.Fail == 0 && failed:
 			// a good reply was delivered; failing is only legitimate if the socket ran into its deadline first
 			v("rejected-good", fmt.Sprintf("a well-formed reply from the addressed controller was delivered but the call failed: %s", c.Rec.Obs.Err))
